@@ -137,6 +137,16 @@ type NamedCont struct {
 	PAD *AnyDict
 }
 
+// NamedSmall: the same without fields that are containers of containers.
+type NamedSmall struct {
+	N  Names
+	PN *Names
+	D  Dict
+	PD *Dict
+	A  any
+	AL AnyList
+}
+
 // ---- arrays (soft)
 
 type Arrays struct {
@@ -246,6 +256,7 @@ func registerMore() {
 	reg[Arr3]("c12_arr3")
 	reg[ArrS]("c12_arrs")
 	reg[NamedCont]("c12_namedcont")
+	reg[NamedSmall]("c12_namedsmall")
 	reg[Arrays]("c12_arrays")
 	reg[UHold]("c12_uhold")
 	reg[Hidden]("c12_hidden")
@@ -258,6 +269,7 @@ func registerMore() {
 		typeInfo{t: rt[TagKey](), w: 2},
 		typeInfo{t: rt[TagEmbed](), w: 2},
 		typeInfo{t: rt[NamedCont](), w: 10, gate: gNamed},
+		typeInfo{t: rt[NamedSmall](), w: 10, gate: gNamed},
 		typeInfo{t: rt[Arrays](), w: 8, gate: gArrays},
 		typeInfo{t: rt[UHold](), w: 10, gate: gUnreg},
 		typeInfo{t: rt[Hidden](), w: 10, gate: gHidden},
